@@ -114,6 +114,11 @@ impl TopDownContext<'_, '_> {
   /// - Its output type has not changed.
   /// - All its dependencies are consistent.
   fn check_task<O: Any>(&mut self, src: &TaskNode) -> Option<&O> {
+    if self.session.store.get_task_output(src).is_none() {
+      // No output: the task is new, or its previous execution was aborted and left partial (possibly reserved)
+      // dependencies behind. Either way it must be executed, so there is nothing to check.
+      return None;
+    }
     let dependencies: Box<[Dependency]> = self.session.store
       .get_dependencies_from_task(src)
       .map(|d| d.clone())
